@@ -1,5 +1,6 @@
 import Momo.Proof.SegMachine
 import Momo.Proof.SegArr
+import Momo.Proof.TrEqSeg
 /-!
 # C16 — SegmentedArray never moves elements and indexes them consistently
 
@@ -260,5 +261,26 @@ example :
     let a := run S {} [.addBack, .addBack, .addBack]
     ¬ (getSeg .sqrt 0 a.count).1 < a.segs.length ∧ getSeg .sqrt 0 a.count = (2, 0) := by
   decide +kernel
+
+/-! ### The code itself, not only the hand-written model (T1b)
+
+`Momo.Tr.*` are Lean definitions regenerated on every check by tools/translate.py from the *function bodies* in the
+current headers (C++ integer semantics explicit: wrap-around of `size_t`, promotion and truncation of the byte fields,
+the `while` loop). The theorems below are about those generated definitions. -/
+/-- **C16 round trip for the code as translated from the header** (both sizings): `GetIndex(GetSegItemIndexes(i)) = i`
+for every `size_t` index except the single point excluded by `Fits` (finding F14). -/
+theorem C16_roundtrip_translated_sqrt (L0 index : Nat) (hL : L0 < 64) (hf : Fits L0 index) :
+    Tr.segSqrt_GetIndex L0 (Tr.segSqrt_GetSegItemIndexes L0 index).1 (Tr.segSqrt_GetSegItemIndexes L0 index).2 = index := by
+  rw [TrEq.tr_sqrt_getSegItemIndexes, TrEq.tr_sqrt_getIndex]
+  exact roundtrip64 .sqrt L0 index hL hf
+
+theorem C16_roundtrip_translated_cnst (L0 index : Nat) (hL : L0 < 64) (hf : Fits L0 index) :
+    Tr.segCnst_GetIndex L0 (Tr.segCnst_GetSegItemIndexes L0 index).1 (Tr.segCnst_GetSegItemIndexes L0 index).2 = index := by
+  rw [TrEq.tr_cnst_getSegItemIndexes, TrEq.tr_cnst_getIndex]
+  exact roundtrip64 .cnst L0 index hL hf
+
+
+example : Tr.segSqrt_GetSegItemIndexes 3 1000 = (21, 48) := by decide
+example : Tr.segSqrt_GetIndex 3 21 48 = 1000 := by decide
 
 end Momo.Seg
